@@ -49,10 +49,10 @@ type Iface struct{ Tag, Ref string }
 type ptrKind int
 
 const (
-	pObj ptrKind = iota // pointer into a heap object designated by a Ref (Path may select an interior field)
-	pCell               // pointer into a non-escaping local
-	pElem               // pointer to a slice/array element
-	pGlobal             // address of a package-level variable
+	pObj    ptrKind = iota // pointer into a heap object designated by a Ref (Path may select an interior field)
+	pCell                  // pointer into a non-escaping local
+	pElem                  // pointer to a slice/array element
+	pGlobal                // address of a package-level variable
 )
 
 // Ptr is a pointer. Only pObj pointers with an empty path are first-class
